@@ -606,3 +606,79 @@ def rule_J5(ctx) -> None:
                         "M(wrapped=0).to_dict() / from_dict round trip")
         else:
             ctx.proved("J5", name, mod.loc(fn), f"{len(paths)} paths")
+
+
+# ---------------------------------------------------------------------------
+# K4 / K5: the names used in JSON are the schema's names (information-flow argument)
+
+
+def rule_K4(ctx, rule: str = "K4") -> None:
+    """JSON object keys: protoc's json_name keeps the letter case and the word boundaries of the proto field name.  The key
+    betterproto emits must therefore be computed from something that still determines the proto name."""
+    from .c19 import _norm_key_expr
+    mod = ctx.repo.mod(M_INIT)
+    fn = mod.func("Message.to_dict")
+    cas = ctx.repo.mod(M_CASING)
+    # what the emitted key depends on (same extraction as I3)
+    casing_param = fn.args.args[1].arg
+    loop = next((n for n in ast.walk(fn) if isinstance(n, ast.For) and "meta_by_field_name" in ast.unparse(n.iter)), None)
+    if loop is None or not isinstance(loop.target, ast.Tuple):
+        ctx.inconclusive(rule, "to_dict:json-key-source", "field loop not recognised", mod.loc(fn))
+        return
+    fname, meta = loop.target.elts[0].id, loop.target.elts[1].id
+    key_deps: Set[str] = set()
+    for n in ast.walk(loop):
+        if isinstance(n, ast.Assign) and len(n.targets) == 1 and isinstance(n.targets[0], ast.Name) and n.targets[0].id == "cased_name":
+            key_deps = {x.id for x in ast.walk(n.value) if isinstance(x, ast.Name)} | {ast.unparse(x) for x in ast.walk(n.value) if isinstance(x, ast.Attribute)}
+    if not key_deps:
+        ctx.inconclusive(rule, "to_dict:json-key-source", "key expression not recognised", mod.loc(fn))
+        return
+    uses_meta_name = any(d.startswith(meta + ".") and "name" in d for d in key_deps)
+    # the Python field name is derived from the proto name by a case-folding function
+    ssc = cas.func("snake_case")
+    folds = any(isinstance(n, ast.Call) and isinstance(n.func, ast.Attribute) and n.func.attr in ("lower", "casefold") for n in ast.walk(ssc))
+    fm = mod.cls("FieldMetadata")
+    meta_fields = [st.target.id for st in fm.body if isinstance(st, ast.AnnAssign) and isinstance(st.target, ast.Name)]
+    carries_name = [f for f in meta_fields if "name" in f]
+    ctx.analysed("Message.to_dict", "FieldMetadata", "casing.snake_case")
+    if uses_meta_name and carries_name:
+        ctx.proved(rule, "to_dict:json-key-source", mod.loc(fn), f"key read from field metadata {carries_name}")
+    elif not folds:
+        ctx.proved(rule, "to_dict:json-key-source", mod.loc(fn), "the Python field name keeps the letters of the proto name")
+    else:
+        ctx.refuted(rule, "to_dict:json-key-source", "python-name-only", mod.loc(fn),
+                    f"the JSON key is computed from the Python attribute name alone ({sorted(key_deps)}); that name is the lower-cased, re-split form of the proto name "
+                    f"(snake_case folds case and splits at digit/letter boundaries) and the field metadata {meta_fields} keeps neither the proto name nor protoc's json_name. "
+                    "For proto names that are not already lower_snake_case with letter-only words the emitted key differs from the canonical JSON name and is rejected by the "
+                    "reference parser: UPPER_SNAKE -> 'upperSnake' (canonical 'UPPERSNAKE'), sha256sum -> 'sha256Sum' (canonical 'sha256sum'), Foo -> 'foo' (canonical 'Foo')",
+                    "json_format.Parse(M(sha256sum='x').to_json(), Ref()) -> ParseError: no field named sha256Sum")
+
+
+def rule_K5(ctx, rule: str = "K5") -> None:
+    """enum values in JSON are the schema's value names: the generated member name must be the proto name, or the proto
+    name must be kept next to it"""
+    from ..src import M_NAMING, T_BODY
+    nam = ctx.repo.mod(M_NAMING)
+    fn = nam.func("pythonize_enum_member_name")
+    name = N(fn.args.args[0].arg)
+    paths = Interp(nam).run(fn)
+    ctx.count(len(paths))
+    shortening = 0
+    for p in paths:
+        if p.outcome == "return" and p.value is not None and any(t[0] in ("slice", "sub") and t[1] == name for t in walk(p.value)):
+            shortening += 1
+    tm_text = (ctx.repo.root / T_BODY).read_text()
+    # does the template emit anything but NAME = number for enum entries (e.g. a proto-name table)?
+    enum_block = tm_text[tm_text.index("for enum in output_file.enums"):tm_text.index("for message in output_file.messages")] if "for enum in output_file.enums" in tm_text else ""
+    keeps_proto_name = "proto_name" in enum_block or "original" in enum_block
+    ctx.analysed("pythonize_enum_member_name", "templates/template.py.j2 (enum block)")
+    if shortening == 0:
+        ctx.proved(rule, "enum-json-name:proto-value-name", nam.loc(fn), "member names are the proto value names (sanitised only)")
+    elif keeps_proto_name:
+        ctx.proved(rule, "enum-json-name:proto-value-name", nam.loc(fn), "the proto value name is emitted next to the member")
+    else:
+        ctx.refuted(rule, "enum-json-name:proto-value-name", "prefix-stripped-member-name", nam.loc(fn),
+                    f"generated enum members drop the ENUM_NAME_ prefix of the proto value name ({shortening} shortening paths) and nothing else of the proto name is emitted; to_dict writes "
+                    "member.name and from_dict reads it with from_string(member name), so for the style-guide naming (enum Foo { FOO_BAR = 1; }) betterproto emits \"BAR\" where the "
+                    "canonical JSON is \"FOO_BAR\", and rejects the reference's \"FOO_BAR\"",
+                    "enum Color { COLOR_RED = 1; }: M(c=Color.RED).to_json() == '{\"c\": \"RED\"}'; M().from_json('{\"c\": \"COLOR_RED\"}') raises ValueError")
